@@ -167,6 +167,11 @@ class Project(object):
         self._module_cache[name] = module
         return module
 
+    def is_root(self, path):
+        # type: (str) -> bool
+        path = os.path.abspath(path)
+        return any(os.path.abspath(p) == path for p in self.get_path())
+
     def norm_package(self, package, filename):
         # type: (str, str) -> str
         if not package.startswith('.'):
@@ -175,8 +180,15 @@ class Project(object):
         if not filename:
             raise ImportError('Relative name outside of a file: {}'.format(package))
 
-        root = filename
-        for _ in range(len(package) - len(package.lstrip('.'))):
+        # the first dot is the package the file lies in, every further one
+        # its parent package
+        root = os.path.dirname(filename)
+        for _ in range(len(package) - len(package.lstrip('.')) - 1):
+            if self.is_root(root) or (os.path.isdir(root) and
+                                      not os.path.exists(os.path.join(root, '__init__.py'))):
+                # a directory that is there and is no package: the dots lead
+                # out of the top-level package of the file
+                raise ImportError('Not a package: {} ({})'.format(root, package))
             root = os.path.dirname(root)
 
         key = root
@@ -185,7 +197,8 @@ class Project(object):
         except KeyError:
             parts = []
             while True:
-                if os.path.exists(os.path.join(root, '__init__.py')):
+                # (a directory modules are searched in is no part of their names)
+                if not self.is_root(root) and os.path.exists(os.path.join(root, '__init__.py')):
                     parts.insert(0, os.path.basename(root))
                     root = os.path.dirname(root)
                 else:
